@@ -74,6 +74,7 @@ namespace
     worlds::Opt o;
     o.spherical = c.type != 0;
     if (c.world == 1) o.variant = 1;
+    if (c.world == 3) o.without_layer = true;   // the first feature of the list (tag 0) is a plate, not a mantle layer: --filtered keeps it, --by-tag writes it
     if (c.world == 2 && c.type != 0) { o.shift = 178; o.custom_cs = false; }
     if (c.type == 3 || (c.type == 2 && c.world == 1)) { o.scale = 8; o.variant = 0; }
     return o;
@@ -165,6 +166,20 @@ namespace
       { GCfg c; c.type = 0; c.dim = 3; c.nx = 16; c.ny = 16; c.nz = 16; c.comps = 1; c.threads = 4; c.format = fmt; set_bounds(c); v.push_back(c); }
     { GCfg c; c.type = 1; c.dim = 3; c.nx = 12; c.ny = 11; c.nz = 9; c.comps = 2; c.threads = 6; c.format = 4; set_bounds(c); v.push_back(c); }
     { GCfg c; c.type = 0; c.dim = 2; c.nx = 70; c.nz = 64; c.comps = 3; c.threads = 7; c.format = 4; set_bounds(c); v.push_back(c); }
+    // a world without a mantle layer (tag 0 is the continental plate) under the filter options
+    for (unsigned mode : {1u, 2u, 3u})
+      {
+        { GCfg c; c.type = 0; c.dim = 3; c.nx = 6; c.ny = 5; c.nz = 6; c.comps = 2; c.threads = 2; c.world = 3; c.mode = mode; set_bounds(c); v.push_back(c); }
+        { GCfg c; c.type = 0; c.dim = 2; c.nx = 12; c.nz = 8; c.comps = 2; c.threads = 1; c.world = 3; c.mode = mode; set_bounds(c); v.push_back(c); }
+        { GCfg c; c.type = 1; c.dim = 3; c.nx = 6; c.ny = 5; c.nz = 5; c.comps = 2; c.threads = 3; c.world = 3; c.mode = mode; set_bounds(c); v.push_back(c); }
+      }
+    // arrays whose byte size is an exact multiple of the 32 KiB compression block: 4096 nodes (16^3, 64^2) and 512 hexahedra
+    for (int fmt : {4, 3, 2})
+      {
+        { GCfg c; c.type = 0; c.dim = 3; c.nx = 15; c.ny = 15; c.nz = 15; c.comps = 1; c.threads = 4; c.format = fmt; set_bounds(c); v.push_back(c); }
+        { GCfg c; c.type = 0; c.dim = 3; c.nx = 8; c.ny = 8; c.nz = 8; c.comps = 2; c.threads = 3; c.format = fmt; set_bounds(c); v.push_back(c); }
+        { GCfg c; c.type = 0; c.dim = 2; c.nx = 63; c.nz = 63; c.comps = 2; c.threads = 5; c.format = fmt; set_bounds(c); v.push_back(c); }
+      }
     // the settings of the grid file in other orders, and a full ball (inner radius 0)
     for (int order : {1, 2, 3})
       for (int type : {0, 1, 2, 3})
@@ -676,7 +691,7 @@ namespace
     for (uint64_t b = 0; b < nb; ++b)
       {
         const uint64_t cs = rd64(app.data, off + 24 + 8 * b);
-        const uint64_t want = (b + 1 == nb) ? last : bs;
+        const uint64_t want = (b + 1 == nb && last != 0) ? last : bs;   // (a partial size of 0 announces that the last block is a full one: the convention of the VTK readers)
         if (at + cs > app.data.size()) { error = "compressed block longer than the file"; return false; }
         std::string blk(want, '\0');
         uLongf got = static_cast<uLongf>(want);
@@ -905,7 +920,7 @@ int main(int argc, char **argv)
   spec.property = "C18";
   spec.level = "exploration";
   spec.rule = "full product of grid type x dim x cell counts (n_cell_x, n_cell_y, n_cell_z each in 1..3|5) x 2 bound sets x 2 worlds, with compositions {0,2,4}, threads {1,2,3} and output mode "
-              "{plain, --filtered, --by-tag, both} and output format assigned round-robin (quick) or all four modes x all five formats per tuple (thorough), plus finer grids and grids with 1331 / 4913 / 4615 nodes (thread counts 2..16, all five formats; arrays spanning several compression blocks) the option --resolution-limit {1,2,3,5,100} on every grid type, the settings of the grid file in three other orders, a full ball and a full disc (inner radius 0); one in-process run of the real gwb-grid main() per "
+              "{plain, --filtered, --by-tag, both} and output format assigned round-robin (quick) or all four modes x all five formats per tuple (thorough), plus finer grids and grids with 1331 / 4913 / 4615 nodes (thread counts 2..16, all five formats; arrays spanning several compression blocks, and arrays of exactly one or several whole blocks: 4096 nodes, 512 hexahedra) the option --resolution-limit {1,2,3,5,100} on every grid type, the settings of the grid file in three other orders, a full ball and a full disc (inner radius 0); one in-process run of the real gwb-grid main() per "
               "configuration. non-trivial: at least one node lies inside a feature (tag >= 0)";
   spec.assumptions = {"the arrays are captured at the call of vtu11::writeVtu (full precision); the written file is parsed back: ASCII files are compared with the %.6g rendering of the arrays, Base64Inline / Base64Appended / RawBinary / RawBinaryCompressed files are decoded the way a VTK reader does (format, offset and header attributes, zlib blocks) and compared byte for byte",
                       "requested mesh: cartesian and chunk grids must be exactly the (n+1)-point lattice between the bounds (chunk: longitude, latitude, radius mapped to cartesian), cells the lattice cells in valid VTK node order; "
